@@ -107,6 +107,8 @@ class BaseGotranODECodePrinter(StrPrinter):
 
     def _print_Piecewise(self, expr):
         conds, exprs = _print_Piecewise(self, expr)
+        if len(conds) == 1:
+            return f"({exprs[0]})"
 
         result = []
 
